@@ -63,7 +63,7 @@ func (o Op) codeCopy(k int) (string, bool) {
 	if o.J == 1 {
 		tgt = a
 	}
-	switch o.T.K {
+	switch copyKind(o.T) {
 	case "S":
 		switch o.I {
 		case 0:
@@ -73,7 +73,7 @@ func (o Op) codeCopy(k int) (string, bool) {
 		case 2:
 			w(`%s.put("cp", %d)`, tgt, 900+o.N)
 		case 3:
-			w(`%s.addKid(World.mkS(%d, [], {}, []))`, tgt, 900+o.N)
+			w(`%s.addKid(World.mkS(%d, [], {}, [], nil, nil))`, tgt, 900+o.N)
 		case 4:
 			w(`%s.setKidA(0, %d)`, tgt, 900+o.N)
 		case 5:
@@ -82,25 +82,44 @@ func (o Op) codeCopy(k int) (string, bool) {
 		case 6:
 			w(`let %s = &%s as &World.S`, n("mr"), tgt)
 			w(`%s.kids[0].setA(%d)`, n("mr"), 900+o.N)
+		case 7:
+			w(`%s.pushOA(%d)`, tgt, 900+o.N)
+		case 8:
+			w(`let %s = &%s as &World.S`, n("mr"), tgt)
+			w(`%s.pushOA(%d)`, n("mr"), 900+o.N)
+		case 9:
+			w(`%s.setO("cp%d")`, tgt, o.N)
 		}
 	case "Arr": // [S]
 		switch o.I {
 		case 0:
-			w(`%s.append(World.mkS(%d, [], {}, []))`, tgt, 900+o.N)
+			w(`%s.append(World.mkS(%d, [], {}, [], nil, nil))`, tgt, 900+o.N)
 		case 1:
 			w(`%s[0].setA(%d)`, tgt, 900+o.N)
 		case 2:
 			w(`%s[0].push(%d)`, tgt, 900+o.N)
 		case 3:
 			w(`let %s = &%s as auth(Mutate) &[World.S]`, n("mr"), tgt)
-			w(`%s.append(World.mkS(%d, [], {}, []))`, n("mr"), 900+o.N)
+			w(`%s.append(World.mkS(%d, [], {}, [], nil, nil))`, n("mr"), 900+o.N)
 		case 4:
 			w(`let %s = &%s as &[World.S]`, n("mr"), tgt)
 			w(`%s[0].setA(%d)`, n("mr"), 900+o.N)
 		case 5:
 			w(`%s.remove(at: 0)`, tgt)
 		case 6:
-			w(`%s[0] = World.mkS(%d, [], {}, [])`, tgt, 900+o.N)
+			w(`%s[0] = World.mkS(%d, [], {}, [], nil, nil)`, tgt, 900+o.N)
+		}
+	case "OArr": // [[Int]?]
+		switch o.I % 4 {
+		case 0:
+			w(`%s[0]!.append(%d)`, tgt, 900+o.N)
+		case 1:
+			w(`%s.append([%d])`, tgt, 900+o.N)
+		case 2:
+			w(`%s[0] = nil`, tgt)
+		case 3:
+			w(`let %s = &%s as auth(Mutate) &[[Int]?]`, n("mr"), tgt)
+			w(`%s[0] = [%d]`, n("mr"), 900+o.N)
 		}
 	case "Dict": // {String: [Int]}
 		switch o.I {
@@ -150,7 +169,24 @@ func (m *Model) applyCopy(o Op, pr *Pred) (string, bool) {
 		tgt = a
 	}
 	k := int64(900 + o.N)
-	switch o.T.K {
+	switch copyKind(o.T) {
+	case "OArr":
+		if len(tgt.Elems) == 0 && o.I%4 != 1 {
+			return FIndex, true
+		}
+		switch o.I % 4 {
+		case 0:
+			if tgt.Elems[0].Opt == nil {
+				return FNil, true
+			}
+			tgt.Elems[0].Opt.Elems = append(tgt.Elems[0].Opt.Elems, VInt(k))
+		case 1:
+			tgt.Elems = append(tgt.Elems, VSome(TOpt(TArr(TInt)), VArr(TArr(TInt), VInt(k))))
+		case 2:
+			tgt.Elems[0] = VNil(TOpt(TArr(TInt)))
+		case 3:
+			tgt.Elems[0] = VSome(TOpt(TArr(TInt)), VArr(TArr(TInt), VInt(k)))
+		}
 	case "S":
 		switch o.I {
 		case 0:
@@ -166,6 +202,14 @@ func (m *Model) applyCopy(o Op, pr *Pred) (string, bool) {
 				return FIndex, true
 			}
 			tgt.F["kids"].Elems[0].F["a"] = VInt(k)
+		case 7, 8:
+			if tgt.F["oa"].Opt == nil {
+				tgt.F["oa"] = VSome(TOpt(TArr(TInt)), VArr(TArr(TInt), VInt(k)))
+			} else {
+				tgt.F["oa"].Opt.Elems = append(tgt.F["oa"].Opt.Elems, VInt(k))
+			}
+		case 9:
+			tgt.F["o"] = VSome(TOpt(TString), VStr(fmt.Sprintf("cp%d", o.N)))
 		}
 	case "Arr":
 		switch o.I {
@@ -215,4 +259,11 @@ func (m *Model) applyCopy(o Op, pr *Pred) (string, bool) {
 		return m.save(o.A, o.Q, c), true
 	}
 	return "", true
+}
+
+func copyKind(t *Ty) string {
+	if t.K == "Arr" && t.Elem.K == "Opt" {
+		return "OArr"
+	}
+	return t.K
 }
